@@ -43,8 +43,8 @@ def prebuild(ctx):
 def _sets(ctx):
     thorough = ctx.tier == 'thorough'
     rnd = random.Random(ctx.seed * 7919 + (1 if thorough else 0))
-    n = 40 if thorough else 6
-    msgs = 20000 if thorough else 700          # target AM count of one job (all ranks together)
+    n = 32 if thorough else 6
+    msgs = 12000 if thorough else 700          # target AM count of one job (all ranks together)
     sets = []
     for i in range(n):
         if i == 0:
